@@ -9,4 +9,4 @@ def load(prop):
     if not os.path.exists(PATH):
         return {}
     data = json.load(open(PATH))
-    return {f['id']: f for f in data.get('findings', []) if f['property'] == prop}
+    return {f['id']: f for f in data.get('findings', []) if f['property'] == prop or prop in f.get('also', [])}
